@@ -38,13 +38,19 @@ namespace Rotonda.Codec
 
 abbrev Bytes := List Nat
 
-/-- Defect-site variant: what happens to non-zero trailing pad bits of a prefix. -/
+/-- Defect-site variants.
+* `maskPad`: what happens to non-zero trailing pad bits of a prefix (`false` = parse
+  error, the code as written; `true` = cleared, the repair).
+* `eorDrops`: BMP, Dumping phase: a Route Monitoring UPDATE for which routecore's
+  `is_eor()` answers "End-of-RIB" is consumed as the marker and its routes are never
+  extracted (`true`, the code as written); `false` = its routes are still extracted. -/
 structure Variant where
   maskPad : Bool
+  eorDrops : Bool
   deriving DecidableEq, Repr
 
-def asWritten : Variant := ⟨false⟩
-def repaired : Variant := ⟨true⟩
+def asWritten : Variant := ⟨false, true⟩
+def repaired : Variant := ⟨true, false⟩
 
 /-- Big-endian 16 bit. -/
 def u16 (n : Nat) : Bytes := [n / 256, n % 256]
@@ -336,5 +342,35 @@ def isEoR (u : Upd) : Bool :=
       match u.attrs with
       | [a] => a.code == 15 && a.value.length == 3
       | _ => false)
+
+/-! ### The BMP Route Monitoring path (Dumping phase) -/
+
+/-- AFI/SAFI pairs routecore 0.5.1 has an NLRI parser for (`afisafi!` table). -/
+def knownRc (afi safi : Nat) : Bool :=
+  (afi == 1 && (safi == 1 || safi == 2 || safi == 4 || safi == 128 || safi == 132 || safi == 133)) ||
+  (afi == 2 && (safi == 1 || safi == 2 || safi == 4 || safi == 128 || safi == 133)) ||
+  (afi == 25 && (safi == 65 || safi == 70))
+
+/-- routecore's `UpdateMessage::is_eor()` (is it `Some(_)`?): the PDU is 23 bytes long,
+    or the first MP_UNREACH yields no NLRI: its NLRI field is empty, or its family is
+    unknown to routecore (the iterator of an unsupported family is always empty).
+    What else the UPDATE carries is not looked at. -/
+def isEorRc (u : Upd) : Bool :=
+  (u.withdrawn.isEmpty && u.attrs.isEmpty && u.nlri.isEmpty) ||
+    match firstOf 15 u.attrs with
+    | none => false
+    | some a =>
+      match parseMpUnreach a.value with
+      | none => false
+      | some m => if knownRc m.afi m.safi then m.nlri.isEmpty else true
+
+/-- One Route Monitoring message in the Dumping phase while no End-of-RIB is pending
+    (e.g. the first one after Peer Up): `route_monitoring_preprocessing` runs before
+    `extract_route_monitoring_routes`; when `is_eor()` says yes and nothing is pending
+    the handler switches to Updating and returns without extracting anything. -/
+def runBmpDumping (v : Variant) (as4 : Bool) (bs : Bytes) : Option (List Event) :=
+  match decode v bs with
+  | none => none
+  | some u => if v.eorDrops && isEorRc u then some [] else events v as4 u
 
 end Rotonda.Codec
